@@ -54,6 +54,7 @@ from ..ast.fpyast import (
     Stmt,
     StmtBlock,
     Var,
+    WhileStmt,
 )
 from ..ast.visitor import DefaultTransformVisitor
 from ..utils import Gensym
@@ -156,6 +157,13 @@ class _ReduceFusionInstance(DefaultTransformVisitor):
         ift = self._visit_expr(e.ift, None)
         iff = self._visit_expr(e.iff, None)
         return IfExpr(cond, ift, iff, e.loc)
+
+    def _visit_while(self, stmt: WhileStmt, ctx: Any):
+        # The condition is evaluated before every iteration; a loop hoisted
+        # ahead of the `while` would run once and freeze its value.
+        cond = self._visit_expr(stmt.cond, None)
+        body, _ = self._visit_block(stmt.body, ctx)
+        return WhileStmt(cond, body, stmt.loc), ctx
 
 
 class ReduceFusion:
